@@ -68,6 +68,10 @@ def universe(tier):
         ("(1,[2,{'a':nan#1}])", (1, [2, {'a': nan1}])), ("(1,[2,{'a':1}])", (1, [2, {'a': 1}])), ("(1,(2,{'a':nan#1}))", (1, (2, {'a': nan1}))),
         ("{'a':1}", {'a': 1}), ("{'a':1.0}", {'a': 1.0}), ("{'b':1}", {'b': 1}), ("{'a':2}", {'a': 2}), ("{'a':nan#1}", {'a': nan1}),
         ('Dict(a=1)', Dict(a=1)), ('dictattr(a=1)', dictattr(a=1)),
+        # same type, same length, DIFFERENT key sets, the missing key holding None / a falsy value (a lookup with a default would hide it)
+        ("{'a':None}", {'a': None}), ("{'b':None}", {'b': None}), ("{'a':None,'c':1}", {'a': None, 'c': 1}), ("{'b':2,'c':1}", {'b': 2, 'c': 1}),
+        ("{'b':None,'c':1}", {'b': None, 'c': 1}), ("{'a':0}", {'a': 0}), ("{'b':0}", {'b': 0}), ("{'a':[]}", {'a': []}), ("{'b':[]}", {'b': []}),
+        ("[{'a':None}]", [{'a': None}]), ("[{'b':None}]", [{'b': None}]),
         ("{'a':[1,2]}", {'a': [1, 2]}), ("{'a':(1,2)}", {'a': (1, 2)}), ("{'a':[1,2],'b':[3]}", {'a': [1, 2], 'b': [3]}),
         ("{'a':[1,2],'b':(3,)}", {'a': [1, 2], 'b': (3,)}),
         # arrays
